@@ -3,7 +3,11 @@
 
   Fail-soft alpha-beta negamax with transposition table, move ordering, fail-hard quiescence and
   iterative deepening (Model/Search.lean, generic over an abstract `Game`) returns the value of the
-  plain, un-pruned, table-free reference `Spec.V` / `Spec.Q` (Spec/Minimax.lean).
+  plain, un-pruned, table-free reference `Spec.V` / `Spec.Q` (Spec/Minimax.lean).  `Spec.Q` is stand-pat
+  minimax over the children that can matter; it equals the plain quiescence minimax `Spec.Qplain` wherever
+  that is finite, solves the plain minimax equations wherever it is defined, and is defined on every
+  position of a game with a quiescence rank — every good chess board (Lemmas/QSpec.lean,
+  Props/QSpecChess.lean), so the hypotheses `Spec.V … = some v` below exclude nothing there.
 
   Vocabulary (Lemmas/SearchBasic.lean):
   * `Contract v r α β`  : r ≤ α → v ≤ r,  r ≥ β → v ≥ r,  α < r < β → r = v.
@@ -116,8 +120,8 @@ theorem Q_fuel_mono (n m : Nat) (p : P) (v : Int) (h : Spec.Q G n p = some v) (h
 theorem V_fuel_mono (n m d : Nat) (p : P) (v : Int) (h : Spec.V G n d p = some v) (hnm : n ≤ m) :
     Spec.V G m d p = some v := V_mono G n m d p v h hnm
 
-/-- out-of-fuel is impossible: the pruned quiescence succeeds whenever the un-pruned reference does
-    (any window, any deadline). -/
+/-- out-of-fuel is impossible: the pruned quiescence succeeds whenever the reference value exists with no
+    more fuel (any window, any deadline). -/
 theorem quiesce_never_out_of_fuel (qf fuel : Nat) (p : P) (α β q : Int) (s : SearchState)
     (hq : Spec.Q G qf p = some q) (hf : qf ≤ fuel) : ∃ r, (quiesce G fuel p α β s).1 = some r :=
   quiesce_some G qf fuel p α β q s hq hf
@@ -131,7 +135,7 @@ theorem negamax_never_out_of_fuel (qf qfuel d : Nat) (p : P) (ply : Nat) (α β 
 /-! ## 1. quiescence -/
 
 /-- **quiesce_contract**: a completed fail-hard quiescence satisfies the fail-soft contract for the
-    un-pruned stand-pat minimax `Spec.Q`, and leaves table, stack and reuse counter alone. -/
+    stand-pat minimax `Spec.Q`, and leaves table, stack and reuse counter alone. -/
 theorem quiesce_contract (fuel qf : Nat) (p : P) (α β q : Int) (s s' : SearchState) (ro : Option Int)
     (hαβ : α < β) (hq : Spec.Q G qf p = some q) (hf : qf ≤ fuel)
     (hrun : quiesce G fuel p α β s = (ro, s')) (hns : NoStop s s') :
